@@ -79,11 +79,13 @@ VARIABLES plan,       \* the environment of this behaviour (constant along it)
           head, status, branches, worktrees,     \* the user's repository
           tmpDirs,    \* temporary directories that exist ("tmp1", "tmp2")
           wtDirty,    \* the current checkout contains untracked, non-ignored files
+          imported,   \* the package is in sys.modules (inspection imported it: a second inspection in the same
+                      \* process - check() - gets the cached module and compiles nothing)
           lines,      \* <<BOOLEAN>>: per returned object, whether its source lines are in the lines collection
           outcome,    \* "running" | "returned" | exception class that left the top-level call
           exitcode    \* check's return value (NoExit: none)
 gitvars == <<head, status, branches, worktrees>>
-vars == <<plan, intrs, phase, pc, pending, inTry, lastrc, head, status, branches, worktrees, tmpDirs, wtDirty, lines, outcome, exitcode>>
+vars == <<plan, intrs, phase, pc, pending, inTry, lastrc, head, status, branches, worktrees, tmpDirs, wtDirty, imported, lines, outcome, exitcode>>
 
 Ref == IF phase = 2 THEN plan.ref2 ELSE plan.ref1
 Tmp == IF phase = 2 THEN "tmp2" ELSE "tmp1"
@@ -97,20 +99,20 @@ RaiseInTry(e) == /\ pending' = e /\ Goto("WorktreeRemove") /\ inTry' = FALSE
 \* ---- check(): prelude ----------------------------------------------------------------------------------
 LatestTag ==       \* against = against or get_latest_tag(package)      [git tag -l --sort=-creatordate]
   /\ pc = "LatestTag" /\ Goto("RepoRoot") /\ lastrc' = 0
-  /\ UNCHANGED <<plan, intrs, phase, pending, inTry, gitvars, tmpDirs, wtDirty, lines, outcome, exitcode>>
+  /\ UNCHANGED <<plan, intrs, phase, pending, inTry, gitvars, tmpDirs, wtDirty, imported, lines, outcome, exitcode>>
 RepoRoot ==        \* repository = get_repo_root(against_path)          [git rev-parse --show-toplevel]
   /\ pc = "RepoRoot" /\ Goto("AssertRepo") /\ phase' = 1 /\ lastrc' = 0
-  /\ UNCHANGED <<plan, intrs, pending, inTry, gitvars, tmpDirs, wtDirty, lines, outcome, exitcode>>
+  /\ UNCHANGED <<plan, intrs, pending, inTry, gitvars, tmpDirs, wtDirty, imported, lines, outcome, exitcode>>
 
 \* ---- tmp_worktree(): set-up ----------------------------------------------------------------------------
 AssertRepo ==      \* assert_git_repo(repo)                             [git rev-parse --is-inside-work-tree]
   /\ pc = "AssertRepo"
   /\ IF plan.repoOk THEN Goto("MkTmp") /\ lastrc' = 0 /\ UNCHANGED pending
      ELSE Goto("EndLoad") /\ lastrc' = 1 /\ pending' = "OSError"
-  /\ UNCHANGED <<plan, intrs, phase, inTry, gitvars, tmpDirs, wtDirty, lines, outcome, exitcode>>
+  /\ UNCHANGED <<plan, intrs, phase, inTry, gitvars, tmpDirs, wtDirty, imported, lines, outcome, exitcode>>
 MkTmp ==           \* with TemporaryDirectory(prefix=...) as tmp_dir:
   /\ pc = "MkTmp" /\ Goto("WorktreeAdd") /\ tmpDirs' = tmpDirs \cup {Tmp}
-  /\ UNCHANGED <<plan, intrs, phase, pending, inTry, lastrc, gitvars, wtDirty, lines, outcome, exitcode>>
+  /\ UNCHANGED <<plan, intrs, phase, pending, inTry, lastrc, gitvars, wtDirty, imported, lines, outcome, exitcode>>
 WorktreeAdd ==     \* git worktree add -b griffe-<normref> <tmp>/<normref> <ref>;  returncode -> RuntimeError
   /\ pc = "WorktreeAdd"
   /\ IF ~Known(Ref) \/ TmpBranch(Ref) \in branches
@@ -119,34 +121,35 @@ WorktreeAdd ==     \* git worktree add -b griffe-<normref> <tmp>/<normref> <ref>
        ELSE /\ lastrc' = 0 /\ UNCHANGED pending /\ Goto("EnterTry")
             /\ branches' = branches \cup {TmpBranch(Ref)}
             /\ worktrees' = worktrees \cup {MyEntry}
-  /\ UNCHANGED <<plan, intrs, phase, inTry, head, status, tmpDirs, wtDirty, lines, outcome, exitcode>>
+  /\ UNCHANGED <<plan, intrs, phase, inTry, head, status, tmpDirs, wtDirty, imported, lines, outcome, exitcode>>
 EnterTry ==        \* try: yield Path(location)      -> body of `with tmp_worktree(...)` in load_git: load(...)
   /\ pc = "EnterTry" /\ Goto("Find") /\ inTry' = TRUE
-  /\ UNCHANGED <<plan, intrs, phase, pending, lastrc, gitvars, tmpDirs, wtDirty, lines, outcome, exitcode>>
+  /\ UNCHANGED <<plan, intrs, phase, pending, lastrc, gitvars, tmpDirs, wtDirty, imported, lines, outcome, exitcode>>
 
 \* ---- load(): stages ------------------------------------------------------------------------------------
 Find ==            \* finder.find_spec; on ModuleNotFoundError dynamic_import(top module) -> ImportError
   /\ pc = "Find"
   /\ IF Content(Ref) = "absent" THEN RaiseInTry("ImportError") ELSE Goto("Analyse") /\ UNCHANGED <<pending, inTry>>
-  /\ UNCHANGED <<plan, intrs, phase, lastrc, gitvars, tmpDirs, wtDirty, lines, outcome, exitcode>>
+  /\ UNCHANGED <<plan, intrs, phase, lastrc, gitvars, tmpDirs, wtDirty, imported, lines, outcome, exitcode>>
 Analyse ==         \* _load_package -> _visit_module / _inspect_module (imports the package: may write __pycache__)
   /\ pc = "Analyse"
   /\ IF Content(Ref) = "syntax"
-       THEN RaiseInTry("LoadingError") /\ UNCHANGED <<wtDirty, lines>>
+       THEN RaiseInTry("LoadingError") /\ UNCHANGED <<wtDirty, imported, lines>>
        ELSE /\ Goto("ExtensionHook") /\ UNCHANGED <<pending, inTry>>
-            /\ wtDirty' = (plan.analysis = "inspect" /\ plan.bc = "on")
+            /\ wtDirty' = (plan.analysis = "inspect" /\ plan.bc = "on" /\ ~imported)
+            /\ imported' = (imported \/ plan.analysis = "inspect")
             /\ lines' = Append(lines, TRUE)       \* both agents store the lines (store_source defaults to True)
   /\ UNCHANGED <<plan, intrs, phase, lastrc, gitvars, tmpDirs, outcome, exitcode>>
 ExtensionHook ==   \* extensions.call("on_package_loaded", ...)
   /\ pc = "ExtensionHook"
   /\ IF plan.extAt = phase THEN RaiseInTry("ExtError") ELSE Goto("ResolveAliases") /\ UNCHANGED <<pending, inTry>>
-  /\ UNCHANGED <<plan, intrs, phase, lastrc, gitvars, tmpDirs, wtDirty, lines, outcome, exitcode>>
+  /\ UNCHANGED <<plan, intrs, phase, lastrc, gitvars, tmpDirs, wtDirty, imported, lines, outcome, exitcode>>
 ResolveAliases ==  \* loader.resolve_aliases(...)
   /\ pc = "ResolveAliases" /\ Goto("Return")
-  /\ UNCHANGED <<plan, intrs, phase, pending, inTry, lastrc, gitvars, tmpDirs, wtDirty, lines, outcome, exitcode>>
+  /\ UNCHANGED <<plan, intrs, phase, pending, inTry, lastrc, gitvars, tmpDirs, wtDirty, imported, lines, outcome, exitcode>>
 Return ==          \* `return load(...)` leaves the with block: the generator resumes after the yield
   /\ pc = "Return" /\ Goto("WorktreeRemove") /\ inTry' = FALSE
-  /\ UNCHANGED <<plan, intrs, phase, pending, lastrc, gitvars, tmpDirs, wtDirty, lines, outcome, exitcode>>
+  /\ UNCHANGED <<plan, intrs, phase, pending, lastrc, gitvars, tmpDirs, wtDirty, imported, lines, outcome, exitcode>>
 
 \* ---- tmp_worktree(): finally ---------------------------------------------------------------------------
 WorktreeRemove ==  \* git worktree remove <location>   (no --force; check=False)
@@ -154,22 +157,22 @@ WorktreeRemove ==  \* git worktree remove <location>   (no --force; check=False)
   /\ IF MyEntry \notin worktrees \/ (wtDirty /\ Variant # "force")
        THEN lastrc' = 1 /\ UNCHANGED <<worktrees, wtDirty>>          \* "contains modified or untracked files"
        ELSE lastrc' = 0 /\ worktrees' = worktrees \ {MyEntry} /\ wtDirty' = FALSE
-  /\ UNCHANGED <<plan, intrs, phase, pending, inTry, head, status, branches, tmpDirs, lines, outcome, exitcode>>
+  /\ UNCHANGED <<plan, intrs, phase, pending, inTry, head, status, branches, tmpDirs, imported, lines, outcome, exitcode>>
 Prune ==           \* git worktree prune               (drops entries whose directory is gone)
   /\ pc = "Prune" /\ Goto("BranchDelete") /\ lastrc' = 0
   /\ worktrees' = {w \in worktrees : w.dir}
-  /\ UNCHANGED <<plan, intrs, phase, pending, inTry, head, status, branches, tmpDirs, wtDirty, lines, outcome, exitcode>>
+  /\ UNCHANGED <<plan, intrs, phase, pending, inTry, head, status, branches, tmpDirs, wtDirty, imported, lines, outcome, exitcode>>
 BranchDelete ==    \* git branch -D griffe-<normref>   (refused while a registered worktree has it checked out)
   /\ pc = "BranchDelete" /\ Goto("RmTmp")
   /\ IF (\E w \in worktrees : w.branch = TmpBranch(Ref)) \/ TmpBranch(Ref) \notin branches
        THEN lastrc' = 1 /\ UNCHANGED branches
        ELSE lastrc' = 0 /\ branches' = branches \ {TmpBranch(Ref)}
-  /\ UNCHANGED <<plan, intrs, phase, pending, inTry, head, status, worktrees, tmpDirs, wtDirty, lines, outcome, exitcode>>
+  /\ UNCHANGED <<plan, intrs, phase, pending, inTry, head, status, worktrees, tmpDirs, wtDirty, imported, lines, outcome, exitcode>>
 RmTmp ==           \* TemporaryDirectory.__exit__: rmtree(tmp_dir) - a checkout still inside it disappears with it
   /\ pc = "RmTmp" /\ Goto("EndLoad")
   /\ tmpDirs' = tmpDirs \ {Tmp} /\ wtDirty' = FALSE
   /\ worktrees' = {[w EXCEPT !.dir = IF w.tmp = Tmp THEN FALSE ELSE @] : w \in worktrees}
-  /\ UNCHANGED <<plan, intrs, phase, pending, inTry, lastrc, head, status, branches, lines, outcome, exitcode>>
+  /\ UNCHANGED <<plan, intrs, phase, pending, inTry, lastrc, head, status, branches, imported, lines, outcome, exitcode>>
 
 \* ---- load_git returns or raises; check continues ---------------------------------------------------------
 EndLoad ==
@@ -179,11 +182,12 @@ EndLoad ==
        ELSE IF plan.op = "load" THEN Goto("Done") /\ outcome' = "returned" /\ UNCHANGED phase
        ELSE IF phase = 1 THEN Goto("AssertRepo") /\ phase' = 2 /\ UNCHANGED outcome
        ELSE Goto("Diff") /\ phase' = 3 /\ UNCHANGED outcome
-  /\ UNCHANGED <<plan, intrs, pending, inTry, lastrc, gitvars, tmpDirs, wtDirty, lines, exitcode>>
+  /\ UNCHANGED <<plan, intrs, pending, inTry, lastrc, gitvars, tmpDirs, wtDirty, imported, lines, exitcode>>
 Diff ==            \* find_breaking_changes(old, new); print; return 1 if breakages else 0
   /\ pc = "Diff" /\ Goto("Done") /\ outcome' = "returned"
-  /\ exitcode' = IF Api(plan.ref1) = 1 /\ Api(plan.ref2) = 2 THEN 1 ELSE 0
-  /\ UNCHANGED <<plan, intrs, phase, pending, inTry, lastrc, gitvars, tmpDirs, wtDirty, lines>>
+  \* under inspection both loads describe the SAME cached module object: no difference is ever found
+  /\ exitcode' = IF plan.analysis = "static" /\ Api(plan.ref1) = 1 /\ Api(plan.ref2) = 2 THEN 1 ELSE 0
+  /\ UNCHANGED <<plan, intrs, phase, pending, inTry, lastrc, gitvars, tmpDirs, wtDirty, imported, lines>>
 
 \* ---- KeyboardInterrupt between two steps ------------------------------------------------------------------
 \* Where control goes depends on what protects the interrupted statement:
@@ -191,7 +195,8 @@ Diff ==            \* find_breaking_changes(old, new); print; return 1 if breaka
 \*   the TemporaryDirectory only       -> RmTmp             (worktree add .. before `try:`, and inside `finally:`)
 \*   the try block                     -> the whole finally clause, then RmTmp
 IntrTarget(p) ==
-  CASE p \in {"LatestTag", "RepoRoot", "AssertRepo", "MkTmp"} -> "EndLoad"
+  CASE p \in {"LatestTag", "RepoRoot"} -> "Done"            \* outside any load_git: check() raises at once
+    [] p \in {"AssertRepo", "MkTmp"} -> "EndLoad"
     [] p \in {"WorktreeAdd", "EnterTry"} -> "RmTmp"
     [] p \in {"Find", "Analyse", "ExtensionHook", "ResolveAliases", "Return"} -> "WorktreeRemove"
     [] p \in {"WorktreeRemove", "Prune", "BranchDelete", "RmTmp"} -> "RmTmp"
@@ -202,7 +207,8 @@ InterruptAt(p) ==
   /\ pc = p /\ p \in Interruptible
   /\ pending' = "KeyboardInterrupt" /\ Goto(IntrTarget(p)) /\ inTry' = FALSE
   /\ intrs' = Append(intrs, [phase |-> phase, at |-> p])
-  /\ UNCHANGED <<plan, phase, lastrc, gitvars, tmpDirs, wtDirty, lines, outcome, exitcode>>
+  /\ outcome' = IF IntrTarget(p) = "Done" THEN "KeyboardInterrupt" ELSE outcome
+  /\ UNCHANGED <<plan, phase, lastrc, gitvars, tmpDirs, wtDirty, imported, lines, exitcode>>
 Interrupt == /\ Len(intrs) < MaxIntr /\ pc \in IntrAt /\ InterruptAt(pc)
 
 \* ---- behaviours --------------------------------------------------------------------------------------------
@@ -225,7 +231,7 @@ InitOf(p) ==
   /\ pc = IF p.op = "check" THEN (IF p.latest THEN "LatestTag" ELSE "RepoRoot") ELSE "AssertRepo"
   /\ pending = "none" /\ inTry = FALSE /\ lastrc = 0
   /\ head = Head0 /\ status = p.status0 /\ branches = UserBranches /\ worktrees = UserWorktrees
-  /\ tmpDirs = {} /\ wtDirty = FALSE /\ lines = <<>> /\ outcome = "running" /\ exitcode = NoExit
+  /\ tmpDirs = {} /\ wtDirty = FALSE /\ imported = FALSE /\ lines = <<>> /\ outcome = "running" /\ exitcode = NoExit
 Init == \E p \in Plans : InitOf(p)
 
 Step == \/ LatestTag \/ RepoRoot \/ AssertRepo \/ MkTmp \/ WorktreeAdd \/ EnterTry
